@@ -38,7 +38,7 @@ def gen_export(rng):
         accounts.append((str(rng.randint(10000000, 99999999)), rng.choice(ACCOUNT_TYPES)))
     acts = []
     d = datetime.date(rng.randint(2015, 2024), rng.randint(1, 12), rng.randint(1, 25))
-    symbols = ["FOO", "BAR.TO", "VTI", "XYZ", "H038778", "DLR.TO"]
+    symbols = ["FOO", "BAR.TO", "VTI", "XYZ", "H038778", "DLR.TO"] + (["EFX", "IFX"] if rng.random() < 0.3 else [])
     n = rng.randint(3, 30)
     for i in range(n):
         d = d + datetime.timedelta(days=rng.choice([0, 0, 0, 1, 2, 5, 30]))
@@ -85,6 +85,8 @@ def gen_export(rng):
             net = money(rng, 0, 300, 2)
             if Fraction(net) == 0:
                 net = "1.23"
+            if rng.random() < 0.15:
+                net = "-" + net       # a dividend reversal / correction, or a dividend charged on a short position
             acts.append(dict(base, kind="DIV", action="DIV", sym=sym, qty="0", price="0", comm="0", gross=net, net=net))
         else:
             acts.append(dict(base, kind="IGN", action=rng.choice(IGNORED), sym=rng.choice(["", sym]), qty=money(rng, 0, 9, 0), price=money(rng, 0, 9, 2),
